@@ -169,7 +169,7 @@ func runProgramme(p *programme) *progResult {
 	for _, ix := range p.Indexes {
 		acked[ix] = map[int64]bool{}
 	}
-	var rotations int64
+	var rotations, rotStarted int64 // completed / begun rotations
 	var wg sync.WaitGroup
 	// all goroutines of the programme leave the gate together: the first batches of several ingesters
 	// then reach a stream that does not exist yet at the same moment
@@ -225,6 +225,7 @@ func runProgramme(p *programme) *progResult {
 	for i := 0; i < p.Rotators; i++ {
 		guard("rotator", func() {
 			for k := 0; k < p.RotateN; k++ {
+				atomic.AddInt64(&rotStarted, 1)
 				writer.ForceRotateSegmentsForTest()
 				atomic.AddInt64(&rotations, 1)
 				time.Sleep(time.Duration(200+k*137%700) * time.Microsecond)
@@ -251,7 +252,9 @@ func runProgramme(p *programme) *progResult {
 					"queryLanguage": "Splunk QL", "size": uint64(p.Total + 10)}
 				qid := atomic.AddUint64(&qidSeq, 1)
 				resp, _, _, err := pipesearch.ParseAndExecutePipeRequest(m, qid, 0, time.Now(), "", nil)
-				ob := searchObs{Index: ix, Text: text, AckedStart: start, DuringRot: atomic.LoadInt64(&rotations) != rot0}
+				// a rotation overlapped the search if one was begun before the search ended that had not
+				// completed when the search began
+				ob := searchObs{Index: ix, Text: text, AckedStart: start, DuringRot: atomic.LoadInt64(&rotStarted) != rot0}
 				if err != nil {
 					ob.Err = err.Error()
 				} else if resp != nil {
